@@ -12,6 +12,7 @@ var propRunners = map[string]func(c *Checker){
 	"C05": runC05,
 	"C06": runC06,
 	"C07": runC07,
+	"C10": runC10,
 	"C11": runC11,
 	"C13": runC13,
 	"C15": runC15,
